@@ -69,6 +69,9 @@ var profiles = map[int][]int{
 
 // vConcreteArgs: draw keys from a small concrete set and values from a counter instead of symbolic
 // bytes (used where the interesting quantifier is elsewhere, e.g. the crash point inside Merge).
+// vTTL is the TTL of opPutTTL records (seconds).
+var vTTL uint32 = 1
+
 var vConcreteArgs bool
 var vArgCounter byte
 
@@ -146,7 +149,7 @@ func applyOp(tx *Tx, o *sOp) error {
 	case opPut:
 		o.err = tx.Put(o.bucket, o.key, o.val, 0)
 	case opPutTTL:
-		o.err = tx.Put(o.bucket, o.key, o.val, 1)
+		o.err = tx.Put(o.bucket, o.key, o.val, vTTL)
 	case opDelete:
 		o.err = tx.Delete(o.bucket, o.key)
 	case opRPush:
